@@ -2,14 +2,18 @@ package props
 
 import (
 	"bytes"
+	"crypto/ed25519"
 	"crypto/rand"
+	crand "crypto/rand"
 	"crypto/rsa"
 	"crypto/tls"
 	"crypto/x509"
+	"crypto/x509/pkix"
 	"encoding/base64"
 	"encoding/pem"
 	"fmt"
 	"math"
+	"math/big"
 	mrand "math/rand/v2"
 	"os"
 	"path/filepath"
@@ -412,7 +416,11 @@ func runC09(c *mon.Ctx) {
 				"http://www.w3.org/2007/05/xmldsig-more#sha3-256", "http://www.w3.org/2001/04/xmlenc#sha384", "http://www.w3.org/2007/05/xmldsig-more#whirlpool"}
 			ek.EncryptionMethod.DigestMethod = &types.DigestMethod{Algorithm: digs[k/4%len(digs)]}
 		}
-		cs.Desc("EncryptedKey ciphertext len=%d keyalg=%s", n, ka)
+		// the certificate the EncryptedKey advertises: none, the SP's, and well-formed or damaged foreign ones
+		adverts := c09Adverts(w)
+		adv := adverts[k%len(adverts)]
+		ek.X509Data = adv.text
+		cs.Desc("EncryptedKey ciphertext len=%d keyalg=%s advertised-cert=%s", n, ka, adv.name)
 		cs.Input(d)
 		cs.Nontrivial(cs.Description())
 		certs := []*tls.Certificate{tlsCert, {}, {Certificate: [][]byte{w.SPEnc.DER}}, {Certificate: [][]byte{{}}, PrivateKey: w.SPEnc.Key.RSA()},
@@ -428,6 +436,9 @@ func runC09(c *mon.Ctx) {
 			}
 		}
 		spec := &sim.EncSpec{DataAlg: sim.AES128CBC, KeyAlg: ka, To: w.SPEnc}
+		if adv.text != "" {
+			spec.RecipRaw = &adv.text
+		}
 		if ek.EncryptionMethod.DigestMethod != nil {
 			spec.Digest = &ek.EncryptionMethod.DigestMethod.Algorithm
 		}
@@ -665,4 +676,27 @@ func c09Shapes(w *World, thorough, race bool) []c09shape {
 		add("misc-deflated-"+name, string(sim.Deflate([]byte(misc[name]), -1)))
 	}
 	return out
+}
+
+type c09advert struct{ name, text string }
+
+var c09AdvertCache []c09advert
+
+// c09Adverts lists X509Certificate texts an EncryptedKey may carry.
+func c09Adverts(w *World) []c09advert {
+	if c09AdvertCache != nil {
+		return c09AdvertCache
+	}
+	enc := func(b []byte) string { return base64.StdEncoding.EncodeToString(b) }
+	_, edKey, _ := ed25519.GenerateKey(crand.Reader)
+	tmpl := &x509.Certificate{SerialNumber: big.NewInt(5), Subject: pkix.Name{CommonName: "verif-ed25519"}, NotBefore: w.Now.AddDate(-1, 0, 0), NotAfter: w.Now.AddDate(1, 0, 0)}
+	edDER, _ := x509.CreateCertificate(crand.Reader, tmpl, tmpl, edKey.Public(), edKey)
+	sp := w.SPEnc.DER
+	sameKey := sim.MintNamed(w.SPEnc.Key, "someone-else", w.Now.AddDate(-1, 0, 0), w.Now.AddDate(1, 0, 0), 78).DER
+	folded := enc(sp)
+	folded = folded[:64] + "\n" + folded[64:128] + "\r\n " + folded[128:]
+	c09AdvertCache = []c09advert{{"none", ""}, {"sp", enc(sp)}, {"other-rsa", enc(sim.Wide(sim.K("spenc2"), w.Now).DER)}, {"ecdsa", enc(w.IdP[2].DER)}, {"ed25519", enc(edDER)},
+		{"same-key-other-cert", enc(sameKey)}, {"sp-cut", enc(sp[:len(sp)/2])}, {"sp-plus-trailing", enc(append(append([]byte{}, sp...), 0, 1, 2))}, {"not-base64", "***"}, {"sp-folded", folded},
+		{"pem-text", string(pem.EncodeToMemory(&pem.Block{Type: "CERTIFICATE", Bytes: sp}))}, {"der-garbage", enc([]byte{0x30, 0x82, 0xff, 0xff, 0x01})}, {"empty-sequence", enc([]byte{0x30, 0x00})}}
+	return c09AdvertCache
 }
